@@ -363,6 +363,11 @@ var c13ScDefects = []scDefect{
 	{"unknown-postprocessor", map[string]string{"post_type": "var/nosuch"}, nil, true},
 	{"unknown-templater", map[string]string{"templater": "nosuch"}, nil, true},
 	{"unknown-preprocessor", map[string]string{"pre_type": "nosuch"}, nil, true},
+	{"mapping-negative-index-beyond-length", map[string]string{"mapping": "source.users[-5].user_id"}, nil, false},
+	{"mapping-negative-index", map[string]string{"mapping": "source.users[-1].user_id"}, nil, false},
+	{"mapping-index-beyond-length", map[string]string{"mapping": "source.users[7].user_id"}, nil, false},
+	{"mapping-last", map[string]string{"mapping": "source.users[last].user_id"}, nil, false},
+	{"mapping-rand", map[string]string{"mapping": "source.users[rand].user_id"}, nil, false},
 	{"mapping-unknown-source", map[string]string{"mapping": "source.nosuch[next].x"}, nil, false},
 	{"mapping-bad-index", map[string]string{"mapping": "source.users[abc].user_id"}, nil, false},
 	{"mapping-unclosed-index", map[string]string{"mapping": "source.users[next.user_id"}, nil, false},
